@@ -1145,6 +1145,14 @@ func (e *SpecEnv) evalCall(x *SX) (Term, error) {
 	case "str":
 		// int -> decimal string
 		return Term{sx("int2str", args[0].S), SStr}, nil
+	case "bytestr":
+		// bytestr(b): the string a byte slice converts to (uninterpreted; string([]byte(s)) == s)
+		if args[0].Sort.Kind != KSlice {
+			return args[0], fmt.Errorf("bytestr of sort %s", args[0].Sort.Name)
+		}
+		fn := "bytes2str_" + args[0].Sort.Name
+		e.ss().ensureDecl(fn, fmt.Sprintf("(declare-fun %s (%s) Str)", fn, args[0].Sort.Name))
+		return Term{sx(fn, args[0].S), SStr}, nil
 	case "sameArray":
 		// sameArray(s, t): both slices view the same backing array from index 0 (s = t[:k] or the reverse)
 		a, b := autoDeref(args[0]), autoDeref(args[1])
